@@ -53,7 +53,7 @@ def run(pid, tier, seed, replay=None):
     ck.mc(DIR, "Cdcl", "MC_Cdcl_quick.cfg")
     ck.mc(DIR, "Cdcl", "MC_Cdcl_live.cfg")
     if tier == "thorough":
-        ck.mc(DIR, "Cdcl", "MC_Cdcl_thorough.cfg", timeout=3000)
+        ck.mc(DIR, "Cdcl", "MC_Cdcl_thorough.cfg", timeout=14400)
     if pid == "C01":
         ck.mc(DIR, "Cdcl", "NC_Cdcl_backjump.cfg", expect_violation="C01")
         ck.mc(DIR, "Cdcl", "NC_Cdcl_restart0.cfg", expect_violation="C01")
@@ -96,7 +96,7 @@ def run(pid, tier, seed, replay=None):
                 cases.append({"clauses": drv.pigeonhole(p, h), "assumptions": [], "limit": 1, "max_conflicts": 100000,
                               "max_restarts": 10000, "luby_factor": lf})
     trs = fix(run_tasks("sat", "run_sat", cases, timeout=60 if tier == "quick" else 120), cases)
-    vs = ck.validate(DIR, "CdclTrace", trs, "recorded solve_sat executions", timeout=3000)
+    vs = ck.validate(DIR, "CdclTrace", trs, "recorded solve_sat executions", timeout=14400)
     ck.classify(trs, [mine(pid, v) for v in vs], nontrivial=lambda t, v: t.get("internal_events", 0) >= 3)
     for t in trs:
         for e in t["events"]:
